@@ -41,6 +41,9 @@ Mark ==
     \/ \E pos \in 0..(TotalChars + 1) :
           /\ ts' = Norm(MarkAtPosition(ts, pos))
           /\ op' = [op |-> "mark_position", pos |-> pos]
+    \/ \E p \in Patterns : \E nth \in 0..1 :
+          /\ ts' = Norm(MarkContent(ts, p, nth))
+          /\ op' = [op |-> "mark_content", p |-> p, nth |-> nth]
     \/ \E a \in 0..(TotalChars + 1) : \E b \in 0..(TotalChars + 1) :
           /\ a <= b
           /\ ts' = Norm(MarkRange(ts, a, b))
@@ -63,7 +66,7 @@ View == <<ts, n>>
 Emit == IF Dump THEN PrintT(ToJson([pre |-> ts, op |-> op', post |-> ts'])) ELSE TRUE
 
 -----------------------------------------------------------------------------
-Inserting == {"wrap_offset", "wrap_pattern", "mark_occurrence", "mark_position", "mark_range"}
+Inserting == {"wrap_offset", "wrap_pattern", "mark_occurrence", "mark_position", "mark_range", "mark_content"}
 
 (* C09: an insertion never alters the readable text *)
 TextPreserved == [][ op'.op \in Inserting => Decode(ts') = Decode(ts) ]_vars
@@ -94,6 +97,7 @@ NoMatchNoChange ==
         /\ (op'.op = "mark_occurrence" /\ OccSlot(ts, op'.p, 1, op'.nth)[1] = 0) => ts' = ts
         /\ (op'.op = "wrap_offset" /\ op'.off >= TotalChars) => ts' = ts
         /\ (op'.op = "mark_position" /\ op'.pos > TotalChars) => ts' = ts
+        /\ (op'.op = "mark_content" /\ OccSlot(ts, op'.p, 1, op'.nth)[1] = 0) => ts' = ts
         /\ (op'.op = "mark_range" /\ op'.b > TotalChars) => ts' = ts      \* no half of a range is ever inserted
       ]_vars
 
